@@ -62,10 +62,18 @@ def check_schedule(rec: Rec, descs, schedule, origin, opcode=False):
         raise HarnessError(f"scheduler error: {e} on {inp}")
     bad = [i for i, (g, (w, _)) in enumerate(zip(got, expected)) if g != w]
     if bad:
-        # determinism of the harness: the same schedule must reproduce the same outcomes
+        # determinism of the harness: the same schedule must reproduce the same outcomes - unless the interleaving left
+        # library state behind (then the calls run alone no longer give their memoised answers either)
         got2, _ = sched.run_concurrently([make_call(d) for d in descs], schedule, repo_root(), opcode)
         if got2 != got:
-            raise HarnessError(f"schedule replay is not deterministic: {inp}")
+            again = [sched.run_alone(make_call(d), repo_root(), opcode)[0] for d in descs]
+            again2 = [sched.run_alone(make_call(d), repo_root(), opcode)[0] for d in descs]
+            if again == [w for w, _ in expected] and again2 == again:
+                got3, _ = sched.run_concurrently([make_call(d) for d in descs], schedule, repo_root(), opcode)
+                if got3 not in (got, got2):
+                    raise HarnessError(f"schedule replay is not deterministic: {inp}")
+            inp["note"] = "outcomes differ between replays: the interleaving left state behind in the library"
+            _ALONE.clear()
         i = bad[0]
         d = descs[i]
         who = d["op"]
@@ -218,6 +226,50 @@ def shard_method(arg):
     return rec
 
 
+NATIONAL = ("BE", "BA", "ES", "FR", "MC", "IT", "SM", "FI", "NO", "PL", "EE", "PT", "RS", "ME", "MK", "SI", "TL", "MR", "TN",
+            "CZ", "SK", "IS")
+
+
+def national_calls(rng, cc):
+    """Calls routed to the national algorithm object of one country: validation (valid / invalid) and generation."""
+    from .c08 import conforming, field_info
+    g = gen()
+    out = []
+    for _ in range(2):
+        b = g.natvalid_bban(cc, rng)
+        if b:
+            out.append({"op": "iban", "text": g.iban_of(cc, b), "validate_bban": True})
+        out.append({"op": "iban", "text": g.iban(cc, rng), "validate_bban": True})
+    fi = field_info(cc)
+    out.append({"op": "generate", "cc": cc, "bank_code": conforming(rng, fi["bank_code"][2], len(fi["bank_code"][2])),
+                "account_code": conforming(rng, fi["account_code"][2], len(fi["account_code"][2])),
+                "branch_code": conforming(rng, fi["branch_code"][2], len(fi["branch_code"][2]))})
+    return out
+
+
+def shard_national(arg):
+    cc, seed, tier = arg
+    import random
+    rng = random.Random(f"{seed}:C14:nat:{cc}")
+    rec = Rec()
+    quick = tier == "quick"
+    for p in range(2 if quick else 8):
+        calls = national_calls(rng, cc)
+        descs = rng.sample(calls, 2)
+        n = enumerate_two_preemptions(rec, descs, 9 if quick else 1, "enum2-national")
+        rec.classes[f"enum-national-{cc}"] += n
+        if p == 0:
+            rec.sample(f"enum-national-{cc}", {"calls": descs, "schedules": n})
+    for _ in range(10 if quick else 200):
+        k = rng.choice((2, 3))
+        descs = [rng.choice(national_calls(rng, cc)) for _ in range(k)]
+        total = sum(alone(d)[1] for d in descs)
+        sch = sorted({(rng.randrange(1, total + 1), rng.randrange(k)) for _ in range(rng.randrange(1, 8))})
+        info, eff = check_schedule(rec, descs, sch, "random-national")
+        rec.case("random-national", (json.dumps(descs), tuple(sch)) if eff else None)
+    return rec
+
+
 def shard_mixed(arg):
     i, seed, tier = arg
     import random
@@ -286,6 +338,8 @@ def run(ctx):
     ctx.assumptions = ["interleavings inside C code and third-party modules are atomic steps (not explored)",
                        "granularity: source line (opcode samples in thorough)"]
     ctx.pmap(shard_method, [(m, ctx.seed, ctx.tier) for m in st["impl"]])
+    ctx.pmap(shard_national, [(cc, ctx.seed, ctx.tier) for cc in NATIONAL])
     ctx.pmap(shard_mixed, [(i, ctx.seed, ctx.tier) for i in range(16 if ctx.quick else 32)])
     ctx.hyp_explore(strategy(), hyp_body, ctx.pick(300, 6000), name="C14-hyp", shrink_s=ctx.pick(25, 200))
-    ctx.require_classes("mixed", "hyp", "random-2-threads", "random-3-threads", *[f"enum-{m}" for m in st["impl"]])
+    ctx.require_classes("mixed", "hyp", "random-2-threads", "random-3-threads", "random-national",
+                        *[f"enum-{m}" for m in st["impl"]], *[f"enum-national-{cc}" for cc in NATIONAL])
